@@ -130,6 +130,58 @@ Theorem acked_sync_restores :
 Proof. exact MachineProofs.acked_sync_restores_nokill. Qed.
 Print Assumptions acked_sync_restores.
 
+(** * Error exits and process death as steps (Db/MachineFaults.v)
+
+    [LsFail true]: ANY error exit of checkpointWithExecutor, from any control state (a busy
+    barrier, bump or boundary lock, a cancelled context, an I/O error), with the deferred
+    rollbacks, the deferred re-acquisition of the read lock and — /repo commit a1345df —
+    syncedToWALEnd / reachedWALEnd cleared when the read lock had been released in that call;
+    [LsKill]: the death of the process at any instant; [LsPostSync]: the copy after a
+    FULL/RESTART checkpoint as /repo commit 20b75a5 runs it.  [steps_head] only says that the
+    run uses these steps of /repo HEAD ([LsFail true], not [LsFail false] / [LsBumpFail];
+    [LsPostSync], not the earlier [LsSync] in that control state): NO side condition on the
+    interleaving is left.  Both commits repair defects this theorem's proof attempt
+    produced and the harness then reproduced: F21 ([error_exit_after_release_refuted]) and
+    F20 (Properties/C04.v, [kill_after_lost_post_copy_refuted]). *)
+From LS Require Db.MachineFaults.
+
+Theorem acked_sync_restores_any_error_exit_any_kill :
+  forall (data : Type) (zero : data) (lock : N) (s0 : state data) (ls : list (label data)) (s : state data),
+  init_ok data zero lock s0 ->
+  run data lock true true true true true s0 ls = Some s ->
+  steps_ok data lock true true true true true s0 ls ->
+  steps_head data lock true true true true true s0 ls ->
+  forall n im b, In (n, im, b) (acks data s) ->
+  img_eq data (restore data zero lock (firstn n (l0 data s))) im.
+Proof. exact MachineFaults.acked_sync_restores_faults. Qed.
+Print Assumptions acked_sync_restores_any_error_exit_any_kill.
+
+(** F21: the error exit before commit a1345df ([LsFail false]); reproduced on the
+    implementation with
+    [OPEN S W SW REOPEN W W ACK-PASSIVE OPEN S SW INJ1=3 INJW=pt.ckpt.bump CK-FULL WT- S SW] *)
+Theorem error_exit_after_release_refuted :
+  exists (s0 : state N) ls s n im b,
+    init_ok N 0%N 1000%N s0 /\ run N 1000%N true true true true true s0 ls = Some s /\
+    steps_ok N 1000%N true true true true true s0 ls /\
+    In (n, im, b) (acks N s) /\
+    ~ img_eq N (restore N 0%N 1000%N (firstn n (l0 N s))) im.
+Proof. exact MachineFaults.error_exit_after_release_refuted. Qed.
+Print Assumptions error_exit_after_release_refuted.
+
+(** non-vacuity: the same history with [LsFail true] satisfies every hypothesis of
+    the theorem, contains an error exit after the PRAGMA and two acknowledgements *)
+Example error_exit_history_restores :
+  option_map (fun s => (length (l0 N s), cur N s, map (fun a => (fst (fst a), snd a)) (acks N s),
+                        map (fst (restore N 0%N 1000%N (l0 N s))) [1; 2]%N,
+                        map (fst (committed N s)) [1; 2]%N))
+             (run N 1000%N true true true true true MachineProofs.ex_init (MachineFaults.fail_steps true))
+  = Some (2%nat, AtLive 1%nat, [(2%nat, true); (1%nat, true)], [99; 55]%N, [99; 55]%N)
+  /\ steps_ok N 1000%N true true true true true MachineProofs.ex_init (MachineFaults.fail_steps true)
+  /\ steps_head N 1000%N true true true true true MachineProofs.ex_init (MachineFaults.fail_steps true).
+Proof.
+  split; [vm_compute; reflexivity|]. split; [exact MachineFaults.fail_steps_ok|exact MachineFaults.fail_steps_head].
+Qed.
+
 (** with the re-read of bb88a29 the one of 80a5b27 is not needed for C01 (it
     still avoids a level-0 file copied from a restarted WAL before the snapshot) *)
 Theorem acked_sync_restores_first_read_redundant :
